@@ -25,7 +25,7 @@ Ltac split_upd :=
 
 (* unfold the task lists of a state literal and relate updated flat_maps to the old ones *)
 Ltac counts x :=
-  unfold plist, future, runl, mpend in *; proj;
+  unfold plist, future, runl, rml, mpend in *; proj;
   repeat match goal with N : pr ?s = _ |- _ => rewrite N in * end;
   repeat match goal with N : fresh ?s = _ |- _ => rewrite N in * end;
   repeat match goal with N : mailbox ?s = _ |- _ => rewrite N in * end;
@@ -41,7 +41,7 @@ Ltac counts x :=
       let E := fresh "E" in pose proof (cnt_flat_upd f l i a b x N) as E;
       generalize dependent (cnt (flat_map f (upd l i b)) x); intros
   end;
-  cbn [heldp futp wpendp wrunp ppend prun] in *;
+  cbn [heldp futp wpendp wrunp wrmp ppend prun prm] in *;
   repeat rewrite ?cnt_app, ?cnt_cons, ?cnt_nil, ?cnt_one in *.
 
 Ltac learn H := let T := type of H in lazymatch goal with | _ : T |- _ => fail | _ => pose proof H end.
@@ -68,17 +68,13 @@ Ltac sat I :=
   | N : nth_error (sp _) ?i = Some (S5 ?t ?ts) |- _ => learn (i_shut_sp _ _ I i _ N eq_refl)
   | N : nth_error (sh _) ?j = Some T2 |- _ => learn (i_lock_sh _ _ I j _ N eq_refl)
   | N : nth_error (sh _) ?j = Some T3 |- _ => learn (i_lock_sh _ _ I j _ N eq_refl)
+  | N : nth_error (sh _) ?j = Some T3 |- _ => learn (i_t3 _ _ I j N)
   | N : nth_error (wk _) ?i = Some (W2 ?t) |- _ => learn (i_done_w _ _ I i t N)
-  | F : fresh _ = true |- _ => learn (i_fresh _ _ I F)
   | N : pr _ = P1 |- _ => learn (i_pready _ _ I (or_introl N))
   | N : pr _ = P2 ?r |- _ => learn (i_pready _ _ I (or_intror (ex_intro _ r (or_introl N))))
   | N : pr _ = P3 ?r |- _ => learn (i_pready _ _ I (or_intror (ex_intro _ r (or_intror (or_introl N)))))
   | N : pr _ = P4 ?r |- _ => learn (i_pready _ _ I (or_intror (ex_intro _ r (or_intror (or_intror (or_introl N))))))
   | N : pr _ = P7 ?r |- _ => learn (i_pready _ _ I (or_intror (ex_intro _ r (or_intror (or_intror (or_intror N))))))
-  | N : pr _ = P2 ?r |- _ => learn (i_pmail _ _ I r (or_introl N))
-  | N : pr _ = P3 ?r |- _ => learn (i_pmail _ _ I r (or_intror (or_introl N)))
-  | N : pr _ = P4 ?r |- _ => learn (i_pmail _ _ I r (or_intror (or_intror (or_introl N))))
-  | N : pr _ = P7 ?r |- _ => learn (i_pmail _ _ I r (or_intror (or_intror (or_intror N))))
   | N : pr _ = P4 ?r |- _ => learn (i_done_p _ _ I r (or_introl N))
   | N : pr _ = P7 ?r |- _ => learn (i_done_p _ _ I r (or_intror N))
   | N : pr _ = PExit |- _ => learn (i_exit _ _ I N)
@@ -93,6 +89,16 @@ Ltac sat2 I :=
   repeat match goal with
   | M : mailbox _ = Some ?r |- _ => learn (i_mb _ _ I r M)
   | Hx : In ?x (acc _) |- _ => learn (i_running _ _ I x Hx)
+  end.
+(* facts with disjunctions: used only when the cheap attempt failed *)
+Ltac sat_or I :=
+  repeat match goal with
+  | F : fresh _ = true |- _ => learn (i_fresh _ _ I F)
+  | M : mailbox _ = Some ?r |- _ => learn (i_mb2 _ _ I r M)
+  | N : pr _ = P2 ?r |- _ => learn (i_pmail _ _ I r (or_introl N))
+  | N : pr _ = P3 ?r |- _ => learn (i_pmail _ _ I r (or_intror (or_introl N)))
+  | N : pr _ = P4 ?r |- _ => learn (i_pmail _ _ I r (or_intror (or_intror (or_introl N))))
+  | N : pr _ = P7 ?r |- _ => learn (i_pmail _ _ I r (or_intror (or_intror (or_intror N))))
   end.
 
 Ltac inv_eq := repeat match goal with
@@ -113,21 +119,39 @@ Ltac fin_ := first [solve [eauto 6 with datatypes]
   | repeat split; eauto 6 with datatypes; try congruence; try discriminate; try (intros; discriminate); try (intros; congruence)].
 
 Ltac cnt1 I t := let x := fresh "x" in intro x;
-  pose proof (i_uniq _ _ I x); pose proof (i_acc _ _ I x); pose proof (i_run _ _ I x);
+  pose proof (i_uniq _ _ I x); pose proof (i_acc _ _ I x); pose proof (i_run _ _ I x); pose proof (i_rn_cnt _ _ I x);
   counts x; try destruct (Nat.eq_dec t x); lia.
 
 (* the generic solver for a clause of the new state: case-split the thread looked at, saturate, break, finish *)
-Ltac auto_clause I :=
+Ltac brk_and :=
+  unfold pbusy, pactive in *;
+  repeat match goal with
+    | H : _ /\ _ |- _ => destruct H
+    | H : exists _, _ |- _ => destruct H
+    end; subst; try discriminate; inv_eq; try congruence.
+
+Ltac auto_clause I t :=
   try solve [ let I' := fresh in (pose proof I as I'; destruct I'; assumption)
-            | (intros; repeat match goal with H : _ \/ _ |- _ => destruct H end; split_upd; inv_eq; try discriminate; sat I; brk; sat I; brk;
-                          let I' := fresh in (pose proof I as I'; destruct I'); fin_)
-            | (intros; cbn [In] in *; repeat match goal with H : _ \/ _ |- _ => destruct H end; subst; split_upd; inv_eq; try discriminate; sat I; sat2 I; brk; sat I; sat2 I; brk;
-                          let I' := fresh in (pose proof I as I'; destruct I'); fin_)].
+            | (lazymatch goal with |- forall y, cnt _ y = _ => idtac end; cnt1 I t)
+            | (intros; repeat match goal with H : _ \/ _ |- _ => destruct H end; split_upd; inv_eq; try discriminate; sat I; brk_and;
+               let I' := fresh in (pose proof I as I'; destruct I'); fin_)
+            | timeout 60 (intros; repeat match goal with H : _ \/ _ |- _ => destruct H end; split_upd; inv_eq; try discriminate; sat I; sat_or I; brk; sat I; brk;
+               let I' := fresh in (pose proof I as I'; destruct I'); fin_)
+            | (lazymatch goal with |- forall x, In x _ -> In x _ \/ In x _ => idtac end;
+               intros; cbn [In] in *; repeat match goal with H : _ \/ _ |- _ => destruct H end; subst; split_upd; inv_eq; try discriminate; sat I; sat2 I; brk; sat I; sat2 I; brk;
+               let I' := fresh in (pose proof I as I'; destruct I'); fin_)].
 (* the clause about a fresh mailbox when only the primary thread's pc moved among its busy pcs *)
 Ltac fresh_busy I N :=
   let F := fresh in let R := fresh in let t := fresh "t" in let M := fresh in let D := fresh in
   intro F; destruct (i_fresh _ _ I F) as [R [t [M D]]]; rewrite N in D; split; [exact R|]; exists t; split; [exact M|];
   unfold pbusy in *; brk; right; right; eexists; split; [eassumption|auto 8].
+(* the converse lock clause for a step of spawner i that keeps or takes the lock *)
+Ltac lockconv I i N :=
+  let i0 := fresh "i0" in let E := fresh "E" in
+  intros i0 E; destruct (Nat.eq_dec i i0) as [->|Ne];
+  [eexists; split; [apply nth_upd_eq; eapply nth_error_Some; rewrite N; discriminate | reflexivity]
+  | first [congruence | let p := fresh "p" in let Hp := fresh in let Hl := fresh in
+      destruct (i_lock_conv_sp _ _ I i0 E) as [p [Hp Hl]]; exists p; split; [rewrite nth_upd_ne by exact Ne; exact Hp | exact Hl]]].
 Ltac rem := match goal with |- ?G => idtac "REM:" G end.
 
 Ltac open_step H :=
@@ -147,7 +171,7 @@ Section Steps.
 Variable c : pcfg.
 Hypothesis C : cfg_ok c.
 
-Ltac go I t := constructor; proj; [cnt1 I t | cnt1 I t | cnt1 I t | idtac .. ]; auto_clause I.
+Ltac go I t := constructor; proj; [cnt1 I t | cnt1 I t | cnt1 I t | idtac .. ]; auto_clause I t.
 
 (* the locked section of _perform_spawn: remove the finished task, wake all waitall callers if _running is empty *)
 Lemma nth_wake : forall l k a, nth_error (wake l) k = Some a ->
@@ -197,6 +221,11 @@ Proof.
   intros s i t s' I N H. open_step H. inversion H; subst s'; clear H.
   destruct (remove_wake_ok s t I) as [R1 [R2 [R3 R4]]]; [eapply i_done_w; eauto|].
   go I t.
+  intro y. pose proof (cnt_remove1 t (running s) y) as R. pose proof (i_rn_cnt _ _ I y) as Y. pose proof (i_rn_cnt _ _ I t) as T.
+  pose proof (cnt_flat_ge wrmp (wk s) _ _ t N) as G. cbn [wrmp] in G. rewrite cnt_one in G. destruct (Nat.eq_dec t t); [|congruence].
+  unfold rml in T. rewrite cnt_app in T.
+  destruct (cnt (running s) t =? 0) eqn:Z; [apply Nat.eqb_eq in Z; lia|].
+  counts y; destruct (Nat.eq_dec t y); lia.
 Qed.
 
 (* ---- the integrated primary thread *)
@@ -219,7 +248,8 @@ Lemma step_P2 : forall s r s', Inv c s -> pr s = P2 r -> tstep c s LPr = Some s'
 Proof.
   intros s r s' I N H. open_step H. all: inversion H; subst s'; clear H. all: go I r.
   all: try fresh_busy I N.
-  all: rem.
+  intros r0 M. destruct (i_mb2 _ _ I r0 M) as [F|[F|[F|F]]];
+    [left; exact F | right; left; right; exact F | right; left; left; congruence | right; right; right; exact F].
 Qed.
 
 Lemma step_P3 : forall s r s', Inv c s -> pr s = P3 r -> tstep c s LPr = Some s' -> Inv c s'.
@@ -234,6 +264,10 @@ Proof.
   destruct (remove_wake_ok s r I) as [R1 [R2 [R3 R4]]]; [eapply i_done_p; eauto|].
   go I r.
   all: try fresh_busy I N.
+  intro y. pose proof (cnt_remove1 r (running s) y) as R. pose proof (i_rn_cnt _ _ I y) as Y. pose proof (i_rn_cnt _ _ I r) as T.
+  unfold rml in T. rewrite N in T. cbn [prm] in T. rewrite cnt_app, cnt_one in T. destruct (Nat.eq_dec r r); [|congruence].
+  destruct (cnt (running s) r =? 0) eqn:Z; [apply Nat.eqb_eq in Z; lia|].
+  counts y; destruct (Nat.eq_dec r y); lia.
 Qed.
 
 Lemma step_P7 : forall s r s', Inv c s -> pr s = P7 r -> tstep c s LPr = Some s' -> Inv c s'.
@@ -245,24 +279,4 @@ Proof.
   all: go I r.
 Qed.
 
-(* ---- spawner threads *)
-Lemma step_S0 : forall s i t ts s', Inv c s -> nth_error (sp s) i = Some (S0 (t :: ts)) -> tstep c s (LSp i) = Some s' -> Inv c s'.
-Proof.
-  intros s i t ts s' I N H. open_step H. all: inversion H; subst s'; clear H.
-  all: go I t.
-  (* the submission protocol: every task accepted before this one has finished *)
-  intros P j t0 ts0 Hn x Hx Hne. split_upd; inv_eq.
-  - cbn [In] in Hx. destruct Hx as [Hx|Hx]; [congruence|].
-    rewrite P in *. cbn [negb orb] in *. eapply subset_in; eauto.
-  - exfalso. pose proof (i_lock_sp _ _ I j _ Hn eq_refl). congruence.
-Qed.
-
-Lemma step_S2 : forall s i t ts s', Inv c s -> nth_error (sp s) i = Some (S2 t ts) -> tstep c s (LSp i) = Some s' -> Inv c s'.
-Proof.
-  intros s i t ts s' I N H. cbn [tstep] in H. rewrite N in H. unfold set_sp in H.
-  destruct (pr s) eqn:Pp; [|destruct (ready s) eqn:Rd; cbn [negb] in H; [destruct (mailbox s) as [rr|] eqn:M; [destruct (mto c) eqn:Mt|]|]..].
-  all: inversion H; subst s'; clear H.
-  all: go I t.
-  all: rem.
-Abort.
 End Steps.
